@@ -772,6 +772,19 @@ where
     }
 }
 
+/// `Bytes::split_to` panics when fewer than `len` bytes remain; a length prefix taken from the
+/// wire must produce an error instead.
+#[inline]
+fn split_to_checked(trans: &mut Bytes, len: usize) -> Result<Bytes, ThriftException> {
+    if trans.len() < len {
+        return Err(new_protocol_exception(
+            ProtocolExceptionKind::InvalidData,
+            format!("no remaining: need {} bytes, {} left", len, trans.len()),
+        ));
+    }
+    Ok(trans.split_to(len))
+}
+
 impl TInputProtocol for TBinaryProtocol<&mut Bytes> {
     type Buf = Bytes;
 
@@ -858,7 +871,7 @@ impl TInputProtocol for TBinaryProtocol<&mut Bytes> {
     fn read_bytes(&mut self) -> Result<Bytes, ThriftException> {
         let len = self.trans.read_i32_le()?;
         // split and freeze it
-        Ok(self.trans.split_to(len as usize))
+        split_to_checked(self.trans, len as usize)
     }
 
     #[inline]
@@ -868,7 +881,7 @@ impl TInputProtocol for TBinaryProtocol<&mut Bytes> {
                 std::slice::from_raw_parts(ptr, len)
             }))
         } else {
-            Ok(self.trans.split_to(len))
+            split_to_checked(self.trans, len)
         }
     }
 
@@ -913,7 +926,7 @@ impl TInputProtocol for TBinaryProtocol<&mut Bytes> {
     #[inline]
     fn read_faststr(&mut self) -> Result<FastStr, ThriftException> {
         let len = self.trans.read_i32_le()? as usize;
-        let bytes = self.trans.split_to(len);
+        let bytes = split_to_checked(self.trans, len)?;
         unsafe { Ok(FastStr::from_bytes_unchecked(bytes)) }
     }
 
@@ -962,7 +975,7 @@ impl TInputProtocol for TBinaryProtocol<&mut Bytes> {
     #[inline]
     fn read_bytes_vec(&mut self) -> Result<Vec<u8>, ThriftException> {
         let len = self.trans.read_i32_le()? as usize;
-        Ok(self.trans.split_to(len).into())
+        Ok(split_to_checked(self.trans, len)?.into())
     }
 
     #[inline]
